@@ -76,6 +76,19 @@ def ite(c, a, b):
         pass
     if _isbool(a) and _isbool(b):
         return V.mk(_z3.If(V.zbool(c), V.zbool(a), V.zbool(b)))
+    abv = getattr(a, 'bv', None)
+    bbv = getattr(b, 'bv', None)
+    if abv is not None or bbv is not None:
+        W = max(abv.size() if abv is not None else 0, bbv.size() if bbv is not None else 0)
+        def side(v, vbv):
+            if vbv is not None:
+                return V._resize(vbv, W)
+            if isinstance(v, int) and not isinstance(v, bool) and 0 <= v < 2 ** W:
+                return _z3.BitVecVal(v, W)
+            return None
+        p, q = side(a, abv), side(b, bbv)
+        if p is not None and q is not None:
+            return V.mkbv(_z3.If(V.zbool(c), p, q))
     return V.mk(_z3.If(V.zbool(c), V.zint(a), V.zint(b)))
 
 
